@@ -74,3 +74,22 @@ Example ex_case : model_check (mkcase d2 [NUn d0 d0 d1; NClone d0; NPar d1 d0]
                                  [(OB true, Some ([d1;d1],[d1;d2])); (OU, Some ([d1;d1],[d1;d2])); (ON d1, None)]
                                  [([d1;d1],[d1;d2]); ([d1;d1],[d1;d2])]) = true.
 Proof. vm_compute. reflexivity. Qed.
+
+(** a call with an index out of range panics, the history goes on with the value it left behind: [check 0 9] has
+    compressed the path of element 0 before the find of 9 panicked *)
+Example ex_case_panic :
+  let c := mkcase d4 [NUn d0 d0 d1; NUn d0 d2 d3; NUn d0 d1 d3; NCheck d0 d0 d9; NPar d0 d0]
+             [(OB true, Some ([d1;d1;d2;d3],[d1;d2;d1;d1])); (OB true, Some ([d1;d1;d3;d3],[d1;d2;d1;d2]));
+              (OB true, Some ([d1;d3;d3;d3],[d1;d2;d1;d4])); (OP, Some ([d3;d3;d3;d3],[d1;d2;d1;d4])); (ON d3, None)]
+             [([d3;d3;d3;d3],[d1;d2;d1;d4])] in
+  model_check c = true /\ spec_check c = true.
+Proof. vm_compute. split; reflexivity. Qed.
+(** ... a call that should have panicked and answered instead, or a failed executor cross-check, is never accepted *)
+Example ex_case_no_panic :
+  let c := mkcase d2 [NUn d0 d2 d2] [(OB false, None)] [([d0;d1],[d1;d1])] in
+  model_check c = false /\ spec_check c = false.
+Proof. vm_compute. split; reflexivity. Qed.
+Example ex_case_cross_check :
+  let c := mkcase d2 [NReset d0 d2] [(OX, Some ([d0;d1],[d1;d1]))] [([d0;d1],[d1;d1])] in
+  model_check c = false /\ spec_check c = false.
+Proof. vm_compute. split; reflexivity. Qed.
